@@ -238,10 +238,14 @@ func runConst(m *model.Model, s *ob.Set) {
 			fl = append(fl, st.Field(i))
 		}
 		offs := sizes.Offsetsof(fl)
-		want := map[string]int64{"d": 0, "m": 8, "pre": 16, "post": 17}
+		// what the assembly relies on is the layout, not the field names: two 8-byte words at
+		// offsets 0 and 8, then two bytes at 16 and 17 (which field is which is fixed by the
+		// table-building Go code and checked through the table values)
+		wantOff := []int64{0, 8, 16, 17}
+		wantSize := []int64{8, 8, 1, 1}
 		okl := sizes.Sizeof(st) == 24 && len(fl) == 4
 		for i, f := range fl {
-			if w, ok := want[f.Name()]; !ok || w != offs[i] {
+			if i >= 4 || offs[i] != wantOff[i] || sizes.Sizeof(f.Type()) != wantSize[i] {
 				okl = false
 			}
 		}
